@@ -347,6 +347,10 @@ class _CB(flow.DefaultCB):
         fv = s.flag(key)
         if fv is not None:
             return fv
+        if isinstance(e, ast.Name):
+            v0 = s.get(e.id)
+            if isinstance(v0, SV) and v0.kind == 'flag' and v0.text in ('True', 'False'):
+                return v0.text == 'True'
         if isinstance(e, ast.Compare) and len(e.ops) == 1:
             l, r = e.left, e.comparators[0]
             if isinstance(e.ops[0], (ast.Is, ast.IsNot)) and isinstance(r, ast.Constant) and r.value is None:
@@ -566,6 +570,13 @@ class _CB(flow.DefaultCB):
         base, s = self.ev(e.value, s, quiet)
         sl = e.slice
         if isinstance(base, ShapeV):
+            if not isinstance(sl, (ast.Constant, ast.Slice)):
+                iv, s = self.ev(sl, s, True)
+                if isinstance(iv, SV):
+                    try:
+                        sl = ast.Constant(value=int(float(iv.text)))
+                    except ValueError:
+                        pass
             if isinstance(sl, ast.Constant) and isinstance(sl.value, int):
                 i = sl.value
                 if -len(base.axes) <= i < len(base.axes):
@@ -682,6 +693,11 @@ class _CB(flow.DefaultCB):
                 if 'damped' not in b.quals:
                     it.events.append(('undamped-division', self.f, node, b))
                 return TV(b.axes, umul(a.unit, b.unit, -1), b.dtype, frozenset(q), frozenset(), None, (), '')
+            if isinstance(a, SV) and isinstance(b, SV) and sign == 1 and {a.kind, b.kind} == {'size', 'mp'}:
+                sz = a if a.kind == 'size' else b
+                if isinstance(sz.size, tuple) and sz.size and sz.size[0] == 'shard':
+                    return SV((), f'full({sz.text})', 'size', sz.size[1])
+                return SV((), f'({sz.text}*mp)', 'size', ('times-mp', sz.size))
             if isinstance(a, SV) and isinstance(b, SV):
                 k = 'size' if (a.kind == 'size' and b.kind == 'size' and sign == 1) else 'num'
                 sz = prod_axis([a.size, b.size]) if k == 'size' else None
